@@ -313,10 +313,202 @@ def gen_insphere():
 
 
 # --------------------------------------------------------------------------
+# Fragment 2: orientation of stored face normals
+# --------------------------------------------------------------------------
+
+def find_let(tokens, name):
+    """tokens of the initialiser of the first `let [mut] name = ... ;`"""
+    for i in range(len(tokens) - 3):
+        if tokens[i] == ('id', 'let'):
+            j = i + 1
+            if tokens[j][1] == 'mut':
+                j += 1
+            if tokens[j] == ('id', name) and tokens[j + 1][1] == '=':
+                k = j + 2
+                depth = 0
+                while not (tokens[k][1] == ';' and depth == 0):
+                    if tokens[k][1] in '([{':
+                        depth += 1
+                    elif tokens[k][1] in ')]}':
+                        depth -= 1
+                    k += 1
+                return tokens[j + 2:k]
+    raise Unparsed("let %s not found" % name)
+
+
+def mentions(e, name):
+    if isinstance(e, tuple):
+        if e[0] == 'path' and name in e[1]:
+            return True
+        return any(mentions(x, name) for x in e[1:])
+    if isinstance(e, list):
+        return any(mentions(x, name) for x in e)
+    return e == name
+
+
+def sign_of_field_chain(e, last):
+    """+1 if `e` is a field chain ending in `.last`, -1 if it is the negation of one"""
+    if e[0] == 'un' and e[1] == '-':
+        return -sign_of_field_chain(e[2], last)
+    if e[0] == 'paren':
+        return sign_of_field_chain(e[1], last)
+    if e[0] == 'field' and e[2] == last:
+        return 1
+    if e[0] == 'mcall' and e[2] == 'normal' and not e[3]:
+        return 1
+    raise Unparsed("stored normal is not (the negation of) a plane normal")
+
+
+def gen_face():
+    # 1. which way does the clipping plane normal of `ConvexCell::build` point?
+    toks = tokenize(strip_attrs_cfg(read('src/voronoi/convex_cell.rs')))
+    _, body, _ = find_fn(toks, 'build')
+    dx = parse_expr_tokens(find_let(body, 'dx'))
+    if dx[0] != 'bin' or dx[1] != '-':
+        raise Unparsed("dx is not a difference")
+    left_is_cell = mentions(dx[2], 'loc') and not mentions(dx[2], 'ngb_loc')
+    right_is_ngb = mentions(dx[3], 'ngb_loc')
+    left_is_ngb = mentions(dx[2], 'ngb_loc')
+    right_is_cell = mentions(dx[3], 'loc') and not mentions(dx[3], 'ngb_loc')
+    if left_is_cell and right_is_ngb:
+        clip = 1          # n ∥ g - q : points into the cell
+    elif left_is_ngb and right_is_cell:
+        clip = -1
+    else:
+        raise Unparsed("cannot tell the orientation of dx")
+    n = parse_expr_tokens(find_let(body, 'n'))
+    if not (n[0] == 'bin' and n[1] == '/' and mentions(n[2], 'dx')):
+        if n[0] == 'un' and n[1] == '-' and mentions(n[2], 'dx'):
+            clip = -clip
+        else:
+            raise Unparsed("n is not dx / dist")
+    # 2. what does `VoronoiFaceIntegral::init` store?
+    toks = tokenize(strip_attrs_cfg(read('src/voronoi/voronoi_face.rs')))
+    s, e = find_impl(toks, ['FaceIntegral', 'for', 'VoronoiFaceIntegral'])
+    _, body, _ = find_fn(toks[s:e], 'init')
+    blk = parse_body(body)
+    lit = blk[2]
+    if lit is None or lit[0] != 'struct':
+        raise Unparsed("VoronoiFaceIntegral::init does not end in a struct literal")
+    normal = dict((f, v) for f, v in lit[2]).get('normal')
+    if normal is None:
+        raise Unparsed("no `normal` field")
+    stored = sign_of_field_chain(normal, 'n')
+    out = []
+    out.append("/-- orientation of the clipping plane normal built by `ConvexCell::build` relative to `g - q` (generator minus neighbour) -/")
+    out.append("def clipNormalSign : Int := %d" % clip)
+    out.append("/-- orientation of the normal `VoronoiFaceIntegral::init` stores relative to the clipping plane normal -/")
+    out.append("def storedNormalSign : Int := %d" % stored)
+    return '\n'.join(out) + '\n'
+
+
+# --------------------------------------------------------------------------
+# Fragment 3: the integer grid domain of `SimulationBoundary::cuboid`
+# --------------------------------------------------------------------------
+
+def lit_rat(e):
+    """a numeric literal as an exact `a/b` string"""
+    from fractions import Fraction
+    while e[0] == 'paren':
+        e = e[1]
+    if e[0] != 'num':
+        raise Unparsed("expected a numeric literal")
+    t = e[1].replace('_', '')
+    for suf in ('f64', 'f32'):
+        if t.endswith(suf):
+            t = t[:-3]
+    if t.endswith('.'):
+        t = t[:-1]
+    return Fraction(t)
+
+
+def is_path(e, name):
+    while e[0] == 'paren':
+        e = e[1]
+    return e[0] == 'path' and e[1] == [name]
+
+
+def gen_grid():
+    toks = tokenize(strip_attrs_cfg(read('src/voronoi/boundary.rs')))
+    _, body, _ = find_fn(toks, 'cuboid')
+    # the struct literal `Self { anchor: .., inverse_width: .., .. }` is the tail of the body
+    k = len(body) - 1
+    # find last `Self {`
+    idx = max(i for i in range(len(body) - 1) if body[i] == ('id', 'Self') and body[i + 1][1] == '{')
+    from rustmini import Parser
+    p = Parser(body[idx:])
+    lit = p.parse_expr()
+    if lit[0] != 'struct':
+        raise Unparsed("no Self { .. } literal in cuboid")
+    fields = dict(lit[2])
+    a = fields.get('anchor')
+    iw = fields.get('inverse_width')
+    if a is None or iw is None:
+        raise Unparsed("anchor / inverse_width fields")
+    # anchor: anchor - K * width   |   anchor - width
+    while a[0] == 'paren':
+        a = a[1]
+    if not (a[0] == 'bin' and a[1] == '-' and is_path(a[2], 'anchor')):
+        raise Unparsed("anchor field is not `anchor - ...`")
+    r = a[3]
+    while r[0] == 'paren':
+        r = r[1]
+    if is_path(r, 'width'):
+        pad = 1
+    elif r[0] == 'bin' and r[1] == '*' and is_path(r[3], 'width'):
+        pad = lit_rat(r[2])
+    elif r[0] == 'bin' and r[1] == '*' and is_path(r[2], 'width'):
+        pad = lit_rat(r[3])
+    else:
+        raise Unparsed("anchor offset is not a multiple of width")
+    # inverse_width: 1. / (S * width)
+    while iw[0] == 'paren':
+        iw = iw[1]
+    if not (iw[0] == 'bin' and iw[1] == '/' and lit_rat(iw[2]) == 1):
+        raise Unparsed("inverse_width is not 1 / ...")
+    d = iw[3]
+    while d[0] == 'paren':
+        d = d[1]
+    if is_path(d, 'width'):
+        span = 1
+    elif d[0] == 'bin' and d[1] == '*' and is_path(d[3], 'width'):
+        span = lit_rat(d[2])
+    elif d[0] == 'bin' and d[1] == '*' and is_path(d[2], 'width'):
+        span = lit_rat(d[3])
+    else:
+        raise Unparsed("inverse_width denominator is not a multiple of width")
+    # mantissa mask of iloc
+    _, ibody, _ = find_fn(toks, 'iloc')
+    mask = parse_expr_tokens(find_let(ibody, 'mantissa_mask'))
+    if mask[0] != 'num':
+        raise Unparsed("mantissa mask")
+    mv = int(mask[1].replace('u64', '').replace('_', ''), 16)
+    from fractions import Fraction
+    pad, span = Fraction(pad), Fraction(span)
+    out = ["/-- grid domain of `cuboid`: stored anchor = anchor - gridPad * width -/",
+           "def gridPad : Rat := (%d : Rat) / %d" % (pad.numerator, pad.denominator),
+           "/-- stored inverse width = 1 / (gridSpan * width) -/",
+           "def gridSpan : Rat := (%d : Rat) / %d" % (span.numerator, span.denominator),
+           "/-- `mantissa_mask` of `iloc` -/",
+           "def mantissaMask : Nat := %d" % mv]
+    return '\n'.join(out) + '\n'
+
+
+# --------------------------------------------------------------------------
 FRAGMENTS = [
     # (module name, source files, generator, imports)
     ('InSphere', ['src/geometry.rs'], gen_insphere, ['MVoro.Model.InSphere']),
+    ('Face', ['src/voronoi/convex_cell.rs', 'src/voronoi/voronoi_face.rs'], gen_face, []),
+    ('Grid', ['src/voronoi/boundary.rs'], gen_grid, []),
 ]
+
+
+# definitions with the right signatures but no content: keep the driver compiling when a fragment is unparsed
+STUBS = {
+    'InSphere': "def inSphereDet (a b c d v : I3 Int) : Int := 0\n" + ''.join("def signExtract_%s (determinant : Int) : Int := 0\n" % b for b in BACKENDS),
+    'Face': "def clipNormalSign : Int := 0\ndef storedNormalSign : Int := 0\n",
+    'Grid': "def gridPad : Rat := 0\ndef gridSpan : Rat := 1\ndef mantissaMask : Nat := 0\n",
+}
 
 
 def main():
@@ -334,6 +526,7 @@ def main():
             status[mod] = {'state': 'ok', 'sha': h.hexdigest()[:16]}
         except Unparsed as ex:
             body = "/-- translator could not parse this fragment: %s -/\ndef unparsed_%s : Unit := ()\n" % (str(ex).replace('-/', '- /'), mod)
+            body += STUBS.get(mod, '')
             status[mod] = {'state': 'unparsed', 'why': str(ex), 'sha': h.hexdigest()[:16]}
         text = head + body + "\nend MVoro.Gen\n"
         status[mod]['changed'] = write_if_changed(os.path.join(OUT, mod + '.lean'), text)
